@@ -171,6 +171,17 @@ def near_misses(rng: random.Random) -> t.Iterator[t.Tuple[str, str]]:
     yield "empty", ""
     yield "just-S", "S"
     yield "S-", "S-"
+    # other numeral notations, in and out of range (none of them is the canonical decimal form)
+    auths = ["0x5", "0X5", "0x000000000005", "0xFFFFFFFFFFFF", "0x1000000000000", "0x10000000000000000", "0x" + "F" * 40, "0o5", "0b101", "5e3", "1_0", "\uff15", "-5", "+5", " 5"]
+    subsn = ["0x12", "0xFFFFFFFF", "0x100000000", "0x10000000000000000", "0x" + "f" * 64, "1_000", "1e3", "0o17", "+1", "-1", " 1", "1 ", "\uff12", "0x0"]
+    for _ in range(6):
+        good_sub = str(rng.randrange(2**32))
+        yield "notation-authority", "-".join(["S", "1", rng.choice(auths)] + [good_sub] * rng.choice([1, 2, 15]))
+        k = rng.choice([1, 2, 5, 15])
+        parts = [good_sub] * k
+        parts[rng.randrange(k)] = rng.choice(subsn)
+        yield "notation-subauthority", "-".join(["S", "1", "5"] + parts)
+        yield "notation-revision", "-".join([rng.choice(["S", "s"]), rng.choice(["0x1", "+1", "\uff11", "1 "]), "5", good_sub])
 
 
 def check_near_miss(rec: Recorder, cls: str, s: str) -> None:
